@@ -27,12 +27,16 @@ with open("seeded/MATRIX.md", "w") as f:
 indep = [r for r in rows if not r[0].startswith("regress-")]
 regr = [r for r in rows if r[0].startswith("regress-")]
 sec = "### 11.7 Seeded changes and which checks catch them\n"
-sec += ("Two kinds of seeded changes are kept under `seeded/` (patch.diff, demo, meta.json each): **independent seeds** `Cxx-a/-b` written by fresh\n"
+sec += ("Two kinds of seeded changes are kept under `seeded/` (patch.diff, demo, meta.json each): **independent seeds** `Cxx-a` ... `Cxx-f` written by fresh\n"
         "sub-agents that were given only the text of one property and their own scratch git worktree (nothing from /verif), each confirmed by\n"
         "`tools/verify_seed*.sh` in another scratch worktree (demo passes on the unmodified tree; with the change the existing 311 tests still pass;\n"
         "with the change the demo fails), and **regression seeds** `regress-*`, the reverse patches of the `fix:` commits of §11.3 (the pinned tree\n"
         "passed its tests with each of those defects present). Every seed is applied to a scratch copy of /repo (`tools/mutest.sh`, never to /repo)\n"
-        "and the registered quick check of the broken property is run; `seeded/MATRIX.md` has the full table with the first signature that fired.\n\n")
+        "and the registered quick check of the broken property is run; `seeded/MATRIX.md` has the full table with the first signature that fired.\n"
+        "Seeds came in four waves (`-a/-b` for all properties; `-c/-d` for all properties; `-e/-f` for C10-C16 and C21-C23); the sub-agents of a later\n"
+        "wave were additionally shown the READMEs of the earlier seeds of their property and asked for a different, subtler mechanism. The table below is\n"
+        "the state after the last strengthening: every seed was re-run against the final checks. What was missed at first, and what was changed in the\n"
+        "check, is listed after the tables.\n\n")
 def table(rs):
     t = "| change | property | check | result | first signature / note |\n|---|---|---|---|---|\n"
     for r in rs:
